@@ -6,6 +6,7 @@ import typing as t
 
 from docutils import nodes
 from docutils.transforms import Transform
+from docutils.transforms.misc import Transitions
 from docutils.transforms.references import Footnotes
 from markdown_it.common.normalize_url import normalizeLink
 
@@ -63,6 +64,31 @@ class UnreferencedFootnotesDetector(Transform):
                     subtype="footnote",
                     node=node,
                 )
+
+
+class _RestoreTransition(Transform):
+    """Put back a transition hidden by ``HideNestedTransitions``."""
+
+    default_priority = Transitions.default_priority + 1
+
+    def apply(self, **kwargs: t.Any) -> None:
+        self.startnode.replace_self(self.startnode.details["transition"])
+
+
+class HideNestedTransitions(Transform):
+    """Hide thematic breaks in block quotes, list items, directive bodies, etc,
+    from docutils' ``Transitions`` transform, which only expects them in sections:
+    it asserts this, or moves the transition out of its parent.
+    """
+
+    default_priority = Transitions.default_priority - 1
+
+    def apply(self, **kwargs: t.Any) -> None:
+        for node in list(findall(self.document)(nodes.transition)):
+            if not isinstance(node.parent, nodes.document | nodes.section):
+                pending = nodes.pending(_RestoreTransition, {"transition": node})
+                self.document.note_pending(pending)
+                node.replace_self(pending)
 
 
 class SortFootnotes(Transform):
